@@ -3,6 +3,7 @@
 from __future__ import annotations
 
 import ast
+import re
 import copy
 
 from .. import norm
@@ -34,6 +35,7 @@ DECIDED = [
     "C16.5 get_nodes_by_name returns nodes_index.get(name) unfiltered (or its unique element)",
     "C16.6 trie node primitives (check/get/set child, traversal yields the node and all descendants)",
     "C16.7 every visit registration goes to the register its name says, for (node, worker); registers start empty and are per node",
+    "C16.8 graph-level lookups: get_nodes/get_objects and the *_by_restr pair agree; unique = exactly one; get_nodes_by_name = the index lookup",
 ]
 NOT_DECIDED = ["exactness of get() for all name sets and queries (data-structure correctness needs a model)"]
 MIN_INSTANCES = 14
@@ -253,7 +255,50 @@ def node_primitives(ctx: Ctx, rule: str) -> None:
                not bad and ok_i, {"changed": bad}, "" if not bad and ok_i else f"a trie node primitive changed: {bad or stores}")
 
 
+def graph_lookups(ctx: Ctx, rule: str) -> None:
+    """The graph-level query helpers: node and object variants agree with each other; 'unique' means exactly one."""
+    G = "cartgraph/graph.py:TestGraph"
+
+    def canon(fref, ren):
+        f = ctx.repo.func(fref)
+        ctx.touch(fref)
+        body = [s_ for s_ in f.node.body if not (isinstance(s_, ast.Expr) and isinstance(s_.value, ast.Constant))]
+        # drop debug output, rename the role-specific identifiers
+        body = [s_ for s_ in body if not (isinstance(s_, ast.Expr) and isinstance(s_.value, ast.Call) and ast.unparse(s_.value.func).startswith("logging."))]
+        text = "\n".join(ast.unparse(s_) for s_ in body)
+        for a, b in ren:
+            text = re.sub(rf"\b{a}\b", b, text)
+        return text
+
+    a = canon(f"{G}.get_nodes", [("nodes", "ITEMS"), ("n", "IT")])
+    b = canon(f"{G}.get_objects", [("objects", "ITEMS"), ("o", "IT")])
+    want = ("regex = re.compile(param_val)\nsubset = self.ITEMS if subset is None else subset\n"
+            "ITEMS = [IT for IT in subset if param_key in IT.params and regex.search(IT.params[param_key])]\n"
+            "return TestGraph._unique_filter(ITEMS) if unique else ITEMS")
+    ok = a == b == want
+    ctx.record(rule, "SIBLING", f"{G}.get_nodes / get_objects", "both: every element of the subset (default: all) whose parameter exists and matches the regex (search); unique -> exactly one", ok,
+               {"get_nodes": a if a != want else "reference", "get_objects": b if b != want else "reference"}, "" if ok else "get_nodes and get_objects no longer select 'parameter present and regex found' alike")
+    a = canon(f"{G}.get_nodes_by_restr", [("filtered_nodes", "ITEMS"), ("get_nodes", "GET")])
+    b = canon(f"{G}.get_objects_by_restr", [("filtered_objects", "ITEMS"), ("get_objects", "GET")])
+    ok2 = a == b and "'(\\\\.|^)(' + or_restriction.replace(',', '|') + ')(\\\\.|$)'" in a and "'^(?!.*(\\\\.|^)(' + or_restriction.replace(',', '|') + ')(\\\\.|$))'" in a \
+        and "ITEMS = self.GET(param_val=regex, subset=ITEMS)" in a and a.rstrip().endswith("return TestGraph._unique_filter(ITEMS) if unique else ITEMS")
+    ctx.record(rule + "r", "SIBLING", f"{G}.get_nodes_by_restr / get_objects_by_restr", "both: per line `only a,b` keeps names containing a or b as whole variants, `no a,b` drops them; filters are applied successively", ok2,
+               {"equal": a == b}, "" if ok2 else "the restriction filters for nodes and objects differ or no longer match whole variants")
+    f = ctx.repo.func(f"{G}._unique_filter")
+    ctx.touch(f.ref)
+    body = [ast.unparse(s_) for s_ in f.node.body if not (isinstance(s_, ast.Expr) and isinstance(s_.value, ast.Constant))]
+    ok3 = (len(body) == 3 and body[0].startswith("if len(items) == 0:\n    raise RuntimeError(") and body[1].startswith("if len(items) > 1:\n    raise RuntimeError(") and body[2] == "return items[0]")
+    ctx.record(rule + "u", "TABLE", f.ref, "unique lookup: none -> RuntimeError, more than one -> RuntimeError, else the one element", ok3, {}, "" if ok3 else "a 'unique' lookup no longer insists on exactly one result")
+    f = ctx.repo.func(f"{G}.get_nodes_by_name")
+    ctx.touch(f.ref)
+    d = [ast.unparse(s_.value) for s_ in f.node.body if isinstance(s_, ast.Assign) and ast.unparse(s_.targets[0]) == "nodes"]
+    r = [ast.unparse(s_.value) for s_ in f.node.body if isinstance(s_, ast.Return)]
+    ok4 = d == ["self.nodes_index.get(name)"] and r == ["TestGraph._unique_filter(nodes) if unique else nodes"]
+    ctx.record(rule + "n", "PROV", f.ref, "get_nodes_by_name returns exactly what the index returns for the name (unique -> exactly one)", ok4, {"nodes": d}, "" if ok4 else "get_nodes_by_name filters or extends the index lookup")
+
+
 def run(ctx: Ctx) -> None:
+    ctx.call(graph_lookups, "8")
     ctx.call(register_cells, "1")
     ctx.call(GR.bridge_table, "2")
     ctx.call(additive_trie, "3")
@@ -267,6 +312,9 @@ def run(ctx: Ctx) -> None:
 
 
 MUTANTS = [
+    ("get-nodes-match-not-search", "cartgraph/graph.py", "            if param_key in n.params and regex.search(n.params[param_key])", "            if param_key in n.params and regex.match(n.params[param_key])", "8"),
+    ("unique-tolerates-many", "cartgraph/graph.py", "        if len(items) > 1:\n            raise RuntimeError(\n                f\"Retrieved test node or object is not unique among {items}\"\n            )\n", "", "8u"),
+    ("by-name-skips-flat", "cartgraph/graph.py", "        nodes = self.nodes_index.get(name)\n", "        nodes = [n for n in self.nodes_index.get(name) if not n.is_flat()]\n", "8n"),
     ("counter-keyed-by-name", NODE, "        if node.bridged_form not in self._registry:\n            self._registry[node.bridged_form] = {}\n        if worker.id not in self._registry[node.bridged_form]:\n            self._registry[node.bridged_form][worker.id] = 0\n        self._registry[node.bridged_form][worker.id] += 1",
      "        if node.params[\"name\"] not in self._registry:\n            self._registry[node.params[\"name\"]] = {}\n        if worker.id not in self._registry[node.params[\"name\"]]:\n            self._registry[node.params[\"name\"]][worker.id] = 0\n        self._registry[node.params[\"name\"]][worker.id] += 1", "1"),
     ("counter-reset", NODE, "        if worker.id not in self._registry[node.bridged_form]:\n            self._registry[node.bridged_form][worker.id] = 0", "        self._registry[node.bridged_form][worker.id] = 0", "1"),
